@@ -5,7 +5,7 @@
    error travelling up -- never escapes), Fatal (FErr ..) (a pybtex error left the reader),
    Fatal FCrash (a foreign Python exception), Fatal FFuel (the model ran out of fuel). *)
 From Pybtex Require Import Base.Prelude Base.PyChar Base.PyStr Model.BibtexStr Model.Names
-  Model.Scanner Model.BibParser Model.BibParserOpt Proofs.Scanner Proofs.BibParser Proofs.BibStrict Proofs.BibStrictFirst Proofs.BibValues Proofs.BibEntry Proofs.BibParserOpt Proofs.BibStrictOpt.
+  Model.Scanner Model.BibParser Model.BibParserOpt Proofs.Scanner Proofs.BibParser Proofs.BibStrict Proofs.BibStrictFirst Proofs.BibValues Proofs.BibEntry Proofs.BibFile Proofs.BibParserOpt Proofs.BibStrictOpt.
 
 (* TOTALITY: for every text whatsoever and every reporting mode, reading terminates within
    the model's fuel (|text|+1 per loop), raises no foreign exception (IndexError in
@@ -85,7 +85,7 @@ Print Assumptions prefix_confinement_partial.
        command left in the parser object (current key / fields / field name / value,
        command_start) do not influence the commands after it *)
 Theorem suffix_confinement_partial : forall D (proc : mode -> cmd -> D -> pst -> out D) m fuel d s k fs fn v cs,
-  view (bib_loop proc fuel m d (mkP (p_sc s) (p_macros s) (p_errs s) k fs fn v cs)) = view (bib_loop proc fuel m d s).
+  Proofs.BibParser.view (bib_loop proc fuel m d (mkP (p_sc s) (p_macros s) (p_errs s) k fs fn v cs)) = Proofs.BibParser.view (bib_loop proc fuel m d s).
 Proof. exact @bib_loop_forgets. Qed.
 Print Assumptions suffix_confinement_partial.
 
@@ -99,6 +99,24 @@ Theorem prefix_confinement_wellformed_partial : forall m es b d s, Forall (wf_se
   lowlevel m (file_text es b) = Ret d s -> exists l, d = map (entry_cmd month_macros) es ++ l.
 Proof. exact prefix_confinement_lowlevel. Qed.
 Print Assumptions prefix_confinement_wellformed_partial.
+
+(* CONFINEMENT, character level, suffix direction, for well-formed suffixes: whatever was read
+   before -- any text, malformed or not: any database d, any errors reported so far, any macro
+   table, any attributes left in the parser object -- once the reader stands between commands
+   in front of a sequence of well-formed items (entries, @string, @preamble, @comment, junk
+   without '@'), it reads them exactly as they denote under the macro table of that moment and
+   adds exactly their problems: the entries AFTER a malformed entry are not altered by it.
+   PARTIAL: the hypothesis is that the reader has resynchronised in front of those items; that a
+   corrupted command whose braces / quotes / parentheses balance and that does not end in a NAME
+   character or '@' is never read past its own end (so that the hypothesis holds) is NOT proved
+   -- it is what the corruption oracle tests (F25 is the case that ends in '@'). *)
+Theorem suffix_confinement_wellformed_partial : forall items fuel d st tail v' e,
+  length items < fuel -> wf_file (p_macros st) items -> no_at tail ->
+  sc_rest (p_sc st) = file_text2 items tail ->
+  denote_items2 (p_macros st) items (Proofs.BibFile.view d) = Some (v', e) ->
+  exists d' st', bib_loop process fuel Capture d st = Ret d' st' /\ Proofs.BibFile.view d' = v' /\ p_errs st' = p_errs st ++ map data_err e.
+Proof. exact file_loop3. Qed.
+Print Assumptions suffix_confinement_wellformed_partial.
 
 (* ---- the same for the reader WITH OPTIONS (Model/BibParserOpt.v):
    Parser(wanted_entries=..., keyless_entries=..., macros=..., person_fields=...) -- for EVERY
